@@ -369,7 +369,9 @@ def run_diff(mp, rec, desc):
     n = desc['n']
     opts = desc.get('opts', {})
     kind = desc['kind']
-    f = fn.tree(mp)
+    f0 = fn.tree(mp)
+    # the test function itself accepts any number type (diffun(f, 0) hands the caller's float straight to f)
+    f = lambda t: f0(mp.convert(t))
     old = mp.prec
     label = '%s/%s/%s/%s' % (kind, desc['f']['fam'], opts.get('method', 'step'), '+'.join(sorted(opts)) or 'default')
     if desc['f']['fam'] == 'ratl' and Q.cabs2(_shift_poly([Q.dy(c) for c in desc['f']['Q']], x0)[0]) == 0:
@@ -453,7 +455,7 @@ def run_history(mp, rec, desc):
 
     def f(t):
         calls[0] += 1
-        return f0(t)
+        return f0(mp.convert(t))
     plan = desc['plan']
     old = mp.prec
     items = []           # (order, value, required precision)
